@@ -1,6 +1,7 @@
 """R10 ORDER and R11 GUARD instances for the circuit classes."""
 import ast
 
+from ..exprnf import Undecidable
 from ..flow import walk, is_const_false, is_const_true
 from ..model import norm, walk_local
 from . import guards
@@ -175,28 +176,182 @@ def check_recompile(run, f, rule='R11.recompile'):
     return n
 
 
+class _Obj:
+    """A heap object of the link interpreter."""
+    def __init__(self, label):
+        self.label = label
+        self.attrs = {}
+
+    def __repr__(self):
+        return self.label
+
+
+class _LinkInterp:
+    """Executes the straight-line / if-else statements that link layers (attribute stores, name bindings, `is None` / `== k`
+    tests, constructor and .copy() calls creating fresh layers) on a small heap."""
+
+    def __init__(self):
+        self.env = {}
+        self.fresh = []
+
+    def new(self, label):
+        o = _Obj(label)
+        o.attrs['next_layer'] = None
+        o.attrs['prev_layer'] = None
+        return o
+
+    def value(self, n):
+        if isinstance(n, ast.Constant):
+            return n.value
+        if isinstance(n, ast.Name):
+            if n.id in self.env:
+                return self.env[n.id]
+            raise Undecidable('free name %s' % n.id)
+        if isinstance(n, ast.Attribute):
+            o = self.value(n.value)
+            if not isinstance(o, _Obj):
+                raise Undecidable('attribute of %r' % (o,))
+            if n.attr not in o.attrs:
+                raise Undecidable('unknown field %s.%s' % (o, n.attr))
+            return o.attrs[n.attr]
+        if isinstance(n, ast.Call):
+            fn = norm(n.func)
+            if fn.endswith('.copy') or fn.split('.')[-1] in ('CliffordLayer', 'MeasureLayer'):
+                o = self.new('new%d' % len(self.fresh))
+                self.fresh.append(o)
+                return o
+            raise Undecidable('call %s' % fn)
+        if isinstance(n, ast.Compare) and len(n.ops) == 1:
+            a, b = self.value(n.left), self.value(n.comparators[0])
+            op = n.ops[0]
+            if isinstance(op, (ast.Is, ast.Eq)):
+                return a is b if isinstance(a, _Obj) or isinstance(b, _Obj) or a is None or b is None else a == b
+            if isinstance(op, (ast.IsNot, ast.NotEq)):
+                return not (a is b if isinstance(a, _Obj) or isinstance(b, _Obj) or a is None or b is None else a == b)
+            if isinstance(op, ast.Gt):
+                return a > b
+            if isinstance(op, ast.Lt):
+                return a < b
+            raise Undecidable('comparison')
+        if isinstance(n, ast.UnaryOp) and isinstance(n.op, ast.Not):
+            return not self.value(n.operand)
+        if isinstance(n, ast.BoolOp):
+            vals = [self.value(v) for v in n.values]
+            return all(vals) if isinstance(n.op, ast.And) else any(vals)
+        raise Undecidable('expression %s' % norm(n))
+
+    def store(self, t, v):
+        if isinstance(t, ast.Name):
+            self.env[t.id] = v
+        elif isinstance(t, ast.Attribute):
+            o = self.value(t.value)
+            if not isinstance(o, _Obj):
+                raise Undecidable('store into attribute of %r' % (o,))
+            o.attrs[t.attr] = v
+        else:
+            raise Undecidable('store target %s' % norm(t))
+
+    def run(self, stmts):
+        LINK = ('next_layer', 'prev_layer', 'first_layer', 'last_layer')
+        for st in stmts:
+            if isinstance(st, ast.AugAssign) and isinstance(st.target, ast.Attribute) and st.target.attr not in LINK:
+                continue          # counters and flags do not touch the chain
+            if isinstance(st, ast.Assign) and all(isinstance(t, ast.Attribute) and t.attr not in LINK for t in st.targets):
+                continue
+            if isinstance(st, ast.Assign):
+                v = self.value(st.value)
+                for t in st.targets:
+                    self.store(t, v)
+            elif isinstance(st, ast.If):
+                self.run(st.body if self.value(st.test) else st.orelse)
+            elif isinstance(st, ast.Pass):
+                pass
+            elif isinstance(st, ast.Return):
+                return
+            elif isinstance(st, ast.Expr) and isinstance(st.value, ast.Constant):
+                pass
+            else:
+                raise Undecidable('statement %s' % norm(st)[:50])
+
+
+def _chain_ok(owner, want):
+    fw, o = [], owner.attrs.get('first_layer')
+    while isinstance(o, _Obj) and len(fw) <= len(want) + 1:
+        fw.append(o)
+        o = o.attrs.get('next_layer')
+    bw, o = [], owner.attrs.get('last_layer')
+    while isinstance(o, _Obj) and len(bw) <= len(want) + 1:
+        bw.append(o)
+        o = o.attrs.get('prev_layer')
+    return fw == want and bw == want[::-1], fw, bw
+
+
 def check_linked_list(run, f, rule='R10.link'):
-    """Appending a layer: X.last_layer.next_layer = new; new.prev_layer = X.last_layer; X.last_layer = new."""
+    """Every block that moves `X.last_layer` is executed by a small heap interpreter: appended to a chain A <-> B (non-loop
+    blocks) or run for three iterations of the enclosing loop on a fresh owner (copy loops).  Afterwards the chain read forward
+    from first_layer and backward from last_layer must be the same sequence, with every new layer in it exactly once."""
     n = 0
+    done = set()
     for st, ctx in walk(f.node):
-        if not (isinstance(st, ast.Assign) and isinstance(st.targets[0], ast.Attribute)
-                and st.targets[0].attr == 'last_layer' and isinstance(st.value, ast.Name)):
+        if not (isinstance(st, ast.Assign) and any(isinstance(t, ast.Attribute) and t.attr == 'last_layer' for t in st.targets)
+                and not (isinstance(st.value, ast.Attribute) and st.value.attr == 'first_layer')):
             continue
-        owner = norm(st.targets[0].value)
-        new = st.value.id
-        block = ctx.block
-        idx = ctx.index
-        before = block[:idx]
-        texts = [norm(s).replace(' ', '') for s in before if isinstance(s, ast.Assign)]
-        first = any(t == '%s.first_layer=%s' % (owner, new) for t in texts)
-        nxt = '%s.last_layer.next_layer=%s' % (owner, new)
-        prv = '%s.prev_layer=%s.last_layer' % (new, owner)
+        tgt = [t for t in st.targets if isinstance(t, ast.Attribute) and t.attr == 'last_layer'][0]
+        owner_name = norm(tgt.value)
+        loop = ctx.loops[-1] if ctx.loops else None
+        key = id(loop) if loop is not None else id(ctx.block)
+        if key in done:
+            continue
+        done.add(key)
         n += 1
-        if first:
-            run.ok(rule, f, st, 'first layer of a fresh chain')
+        it = _LinkInterp()
+        owner = _Obj('owner')
+        if not isinstance(tgt.value, ast.Name):
+            run.undecided(rule, f, st, 'owner of the chain is not a plain name')
             continue
-        run.check(nxt in texts and prv in texts, rule, f, st,
-                  'appending layer `%s`: both links must be set before last_layer moves (%s ; %s)' % (new, nxt, prv))
+        it.env[owner_name] = owner
+        try:
+            if loop is not None and isinstance(loop, ast.For):
+                owner.attrs.update(first_layer=None, last_layer=None)
+                targets = loop.target.elts if isinstance(loop.target, ast.Tuple) else [loop.target]
+                enum = isinstance(loop.iter, ast.Call) and norm(loop.iter.func) == 'enumerate'
+                # bindings made before the loop (e.g. a `prev = None` pointer)
+                for s0, c0 in walk(f.node):
+                    if s0.lineno < loop.lineno and not c0.loops and isinstance(s0, ast.Assign) and isinstance(s0.value, ast.Constant):
+                        for t in s0.targets:
+                            if isinstance(t, ast.Name):
+                                it.env[t.id] = s0.value.value
+                for k in range(3):
+                    src = it.new('src%d' % k)
+                    if enum and len(targets) == 2:
+                        it.env[targets[0].id] = k
+                        it.env[targets[1].id] = src
+                    elif len(targets) == 1 and isinstance(targets[0], ast.Name):
+                        it.env[targets[0].id] = src
+                    else:
+                        raise Undecidable('loop target')
+                    it.run(loop.body)
+                want = it.fresh[:]
+                ok, fw, bw = _chain_ok(owner, want)
+                ok = ok and len(want) == 3
+                what = 'copying three layers'
+            else:
+                a, b = it.new('A'), it.new('B')
+                a.attrs['next_layer'], b.attrs['prev_layer'] = b, a
+                owner.attrs.update(first_layer=a, last_layer=b)
+                for prm in f.posparams[1:]:
+                    it.env[prm] = it.new('arg_' + prm)
+                it.run(ctx.block)
+                new = [o for o in (owner.attrs.get('last_layer'),) if isinstance(o, _Obj) and o not in (a, b)]
+                want = [a, b] + new
+                ok, fw, bw = _chain_ok(owner, want)
+                ok = ok and len(new) == 1
+                what = 'appending one layer to the chain A <-> B'
+        except Undecidable as e:
+            run.undecided(rule, f, st, 'link block not interpretable: %s' % e)
+            continue
+        run.check(ok, rule, f, st, '%s: read forward from first_layer the chain is %s, read backward from last_layer it is %s; both must be the '
+                  'same sequence and contain every new layer once (next_layer / prev_layer / last_layer must all be updated)' % (what, fw, bw))
     return n
 
 
@@ -225,6 +380,56 @@ def check_take(run, repo, f, has_measure, rule='R11.take'):
                     run.check(ok3, rule + '.measure', f, c,
                               'a gate added after a measurement must never move in front of it: the hand-over to %s is not '
                               'excluded when it is a MeasureLayer' % recv)
+    n += check_slide(run, f, gate, has_measure, rule)
+    return n
+
+
+def check_slide(run, f, gate, has_measure, rule='R11.take'):
+    """Iterative forms of the hand-over.  (a) a pointer that walks back through the layers (`v = v.prev_layer` in a loop)
+    may only move onto a layer that was tested: the loop condition must contain `v.prev_layer.independent_from(gate)` (the layer
+    moved TO, not the one being left) and `v.prev_layer is not None`.  (b) a scan `for L in ....layers_backward()` that selects
+    `target = L` where L is independent must stop at the first layer that overlaps the gate (a `break` on the path where
+    `L.independent_from(gate)` is false): otherwise the gate jumps over a layer it does not commute with."""
+    n = 0
+    stmts = list(walk(f.node))
+    for st, ctx in stmts:
+        if not (isinstance(st, ast.Assign) and isinstance(st.targets[0], ast.Name) and ctx.loops):
+            continue
+        v = st.targets[0].id
+        val = st.value
+        lp = ctx.loops[-1]
+        if isinstance(val, ast.Attribute) and val.attr == 'prev_layer' and isinstance(lp, ast.While):
+            to = norm(val)
+            n += 1
+            # the loop test holds at this statement when nothing it mentions was reassigned earlier in the body
+            used = {x.id for x in ast.walk(lp.test) if isinstance(x, ast.Name)}
+            earlier = [s for s in lp.body if s.lineno < st.lineno]
+            stale = any(isinstance(x, ast.Name) and isinstance(x.ctx, ast.Store) and x.id in used for s in earlier for x in ast.walk(s))
+            conds = ctx.conds + (() if stale else ((lp.test, True),))
+            ctx = type(ctx)(conds, ctx.loops, ctx.block, ctx.index, ctx.parent_stmt)
+            ok, _ = guards.entails(ctx.conds, [('%s.independent_from(%s)' % (to, gate), True)])
+            run.check(ok, rule, f, st, 'the pointer moves onto %s, so the loop may only continue while %s.independent_from(%s) holds: '
+                      'testing another layer lets the gate slide past (or next to) a gate it overlaps' % (to, to, gate))
+            ok2, _ = guards.entails(ctx.conds, [('%s is None' % to, False)])
+            run.check(ok2, rule, f, st, '%s may be None here' % to)
+            if has_measure:
+                ok3, _ = guards.entails(ctx.conds, [('isinstance(%s, MeasureLayer)' % to, False)])
+                n += 1
+                run.check(ok3, rule + '.measure', f, st, 'a gate added after a measurement must never move in front of it: the move onto %s '
+                          'is not excluded when it is a MeasureLayer' % to)
+        elif isinstance(lp, ast.For) and isinstance(lp.target, ast.Name) and isinstance(val, ast.Name) and val.id == lp.target.id \
+                and isinstance(lp.iter, ast.Call) and isinstance(lp.iter.func, ast.Attribute) and lp.iter.func.attr == 'layers_backward':
+            L = lp.target.id
+            n += 1
+            ok, _ = guards.entails(ctx.conds, [('%s.independent_from(%s)' % (L, gate), True)])
+            run.check(ok, rule, f, st, 'layer %s is selected as the host of the gate without %s.independent_from(%s) on this path' % (L, L, gate))
+            stops = False
+            for s2, c2 in stmts:
+                if isinstance(s2, (ast.Break, ast.Return)) and c2.loops and c2.loops[-1] is lp:
+                    neg, _ = guards.entails(c2.conds, [('%s.independent_from(%s)' % (L, gate), False)])
+                    stops = stops or neg
+            run.check(stops, rule, f, lp, 'the backward scan selects every independent layer it meets and never stops at the first layer that '
+                      'overlaps the gate: the gate can jump over a layer it does not commute with')
     return n
 
 
